@@ -5,6 +5,7 @@ import (
 	"sync"
 	"time"
 
+	"github.com/zitadel/oidc/v3/pkg/oidc"
 	"github.com/zitadel/oidc/v3/pkg/op"
 )
 
@@ -63,10 +64,13 @@ type LoudStorage struct {
 	CC
 	TE
 	Dev
-	mu    *sync.Mutex
-	rts   map[string]*RefreshToken
-	codes map[string]*AuthRequest
-	reqs  map[string]*AuthRequest
+	quiet   bool  // AsStyledStorage(loud=false, ...): refusals are (nil, err) as in AsStorage
+	replace bool  // userinfo style: the destination struct is REPLACED by a freshly loaded one
+	gate    *Gate // nil = none
+	mu      *sync.Mutex
+	rts     map[string]*RefreshToken
+	codes   map[string]*AuthRequest
+	reqs    map[string]*AuthRequest
 }
 
 func (s *Store) AsLoudStorage() op.Storage {
@@ -75,7 +79,11 @@ func (s *Store) AsLoudStorage() op.Storage {
 }
 
 func (l LoudStorage) TokenRequestByRefreshToken(ctx context.Context, token string) (op.RefreshTokenRequest, error) {
+	l.gate.pass("TokenRequestByRefreshToken")
 	r, err := l.Store.TokenRequestByRefreshToken(ctx, token)
+	if l.quiet {
+		return r, err
+	}
 	l.mu.Lock()
 	defer l.mu.Unlock()
 	if err == nil {
@@ -95,7 +103,11 @@ func (l LoudStorage) TokenRequestByRefreshToken(ctx context.Context, token strin
 }
 
 func (l LoudStorage) AuthRequestByCode(ctx context.Context, code string) (op.AuthRequest, error) {
+	l.gate.pass("AuthRequestByCode")
 	r, err := l.Store.AuthRequestByCode(ctx, code)
+	if l.quiet {
+		return r, err
+	}
 	l.mu.Lock()
 	defer l.mu.Unlock()
 	if err == nil {
@@ -122,6 +134,9 @@ func (l LoudStorage) AuthRequestByCode(ctx context.Context, code string) (op.Aut
 
 func (l LoudStorage) AuthRequestByID(ctx context.Context, id string) (op.AuthRequest, error) {
 	r, err := l.Store.AuthRequestByID(ctx, id)
+	if l.quiet {
+		return r, err
+	}
 	l.mu.Lock()
 	defer l.mu.Unlock()
 	if err == nil {
@@ -140,8 +155,8 @@ func (l LoudStorage) AuthRequestByID(ctx context.Context, id string) (op.AuthReq
 
 func (l LoudStorage) GetClientByClientID(ctx context.Context, id string) (op.Client, error) {
 	c, err := l.Store.GetClientByClientID(ctx, id)
-	if err == nil {
-		return c, nil
+	if err == nil || l.quiet {
+		return c, err
 	}
 	l.Store.mu.Lock()
 	defer l.Store.mu.Unlock()
@@ -159,5 +174,117 @@ func (s *Store) ExpireRefreshToken(id string) {
 	defer s.mu.Unlock()
 	if t, ok := s.Refresh[id]; ok {
 		t.Expiration = time.Now().Add(-time.Hour)
+	}
+}
+
+// AsStyledStorage is AsStorage(true, true, true) in a chosen STYLE (all legal for op.Storage):
+//
+//	loud     refused lookups return a value next to the error (see LoudStorage)
+//	replace  SetUserinfoFromScopes / SetUserinfoFromRequest load a fresh oidc.UserInfo and assign it
+//	         to the destination (*userinfo = *loaded) instead of setting single fields: whatever the
+//	         caller had put into the structure is gone
+//	gate     (may be nil) lets the test side hold one request inside a lookup, see Gate
+func (s *Store) AsStyledStorage(loud, replace bool, gate *Gate) op.Storage {
+	l := s.AsLoudStorage().(LoudStorage)
+	l.quiet, l.replace, l.gate = !loud, replace, gate
+	return l
+}
+
+func (l LoudStorage) SetUserinfoFromScopes(ctx context.Context, ui *oidc.UserInfo, userID, clientID string, scopes []string) error {
+	if !l.replace {
+		return l.Store.SetUserinfoFromScopes(ctx, ui, userID, clientID, scopes)
+	}
+	loaded := new(oidc.UserInfo)
+	if err := l.Store.SetUserinfoFromScopes(ctx, loaded, userID, clientID, scopes); err != nil {
+		return err
+	}
+	*ui = *loaded
+	return nil
+}
+
+func (l LoudStorage) SetUserinfoFromRequest(ctx context.Context, ui *oidc.UserInfo, req op.IDTokenRequest, scopes []string) error {
+	if !l.replace {
+		return l.Store.SetUserinfoFromRequest(ctx, ui, req, scopes)
+	}
+	loaded := new(oidc.UserInfo)
+	if err := l.Store.SetUserinfoFromRequest(ctx, loaded, req, scopes); err != nil {
+		return err
+	}
+	*ui = *loaded
+	return nil
+}
+
+// Gate holds ONE request inside a storage lookup so that the test side can run another request
+// while the first is in flight. Arm(method) before sending the first request; the next call of
+// that method (TokenRequestByRefreshToken or AuthRequestByCode of a styled storage) announces
+// itself on Arrived() and then waits - before the store is consulted - until Release() or, at the
+// latest, for Timeout (then TimedOut() reports it). Disarm() if the request ended without arriving.
+type Gate struct {
+	Timeout time.Duration // 0 = 3s
+	mu      sync.Mutex
+	armed   string
+	arrived chan struct{}
+	release chan struct{}
+	late    bool
+}
+
+func (g *Gate) Arm(method string) {
+	g.mu.Lock()
+	defer g.mu.Unlock()
+	g.armed, g.arrived, g.release, g.late = method, make(chan struct{}, 1), make(chan struct{}), false
+}
+
+func (g *Gate) Disarm() {
+	g.mu.Lock()
+	defer g.mu.Unlock()
+	g.armed = ""
+}
+
+func (g *Gate) Arrived() <-chan struct{} {
+	g.mu.Lock()
+	defer g.mu.Unlock()
+	return g.arrived
+}
+
+func (g *Gate) Release() {
+	g.mu.Lock()
+	defer g.mu.Unlock()
+	if g.release != nil {
+		select {
+		case <-g.release:
+		default:
+			close(g.release)
+		}
+	}
+}
+
+func (g *Gate) TimedOut() bool {
+	g.mu.Lock()
+	defer g.mu.Unlock()
+	return g.late
+}
+
+func (g *Gate) pass(method string) {
+	if g == nil {
+		return
+	}
+	g.mu.Lock()
+	if g.armed != method {
+		g.mu.Unlock()
+		return
+	}
+	g.armed = ""
+	arrived, release, d := g.arrived, g.release, g.Timeout
+	g.mu.Unlock()
+	if d == 0 {
+		d = 3 * time.Second
+	}
+	arrived <- struct{}{}
+	select {
+	case <-release:
+	case <-time.After(d):
+		g.mu.Lock()
+		g.late = true
+		g.mu.Unlock()
 	}
 }
